@@ -90,12 +90,12 @@ def check(stats, m, env, supplied, var, extra, sub="coordinates"):
     o = lib.call(lambda: build(m).at(number))
     d = lib.call(lambda: lib.Derivative(build(m)))
     if len(vs) <= 1:
-        if o.kind not in (lib.NUM, lib.DOM, lib.OVF):
+        if o.kind in (lib.EXC, lib.MISS):
             raise violation(ID, "bare", f"bare-rejected:{o.kind}", case, f"{M.text(m)[:300]} has {len(vs)} variable(s) but at({number}) gave {o!r}")
         if d.kind != lib.OBJ:
             raise violation(ID, "bare", f"derivative-rejected:{d.kind}", case, f"{M.text(m)[:300]} has {len(vs)} variable(s) but Derivative(e) gave {d!r}")
         dn = lib.call(lambda: lib.Derivative(build(m)).at(number))
-        if dn.kind not in (lib.NUM, lib.DOM, lib.OVF):
+        if dn.kind in (lib.EXC, lib.MISS):
             raise violation(ID, "bare", f"derivative-at-number:{dn.kind}", case, f"Derivative(e).at({number}) gave {dn!r} for {M.text(m)[:300]}")
         stats.count("single-variable")
     else:
@@ -104,6 +104,7 @@ def check(stats, m, env, supplied, var, extra, sub="coordinates"):
         if d.kind == lib.OBJ:
             raise violation(ID, "bare", "derivative-accepted", case, f"{M.text(m)[:300]} has variables {vs} but Derivative(e) was constructed")
         stats.count("multi-variable")
+    subterm_checks(stats, m, env, case)
     proper = 0 < len([v for v in vs if v in point]) < len(vs)
     odd = any((not n.isascii()) or (not n.isidentifier()) or n in S.LEGAL_SPECIAL for n in vs)
     masked = any(masked_only(m, n) for n in vs)
@@ -112,6 +113,51 @@ def check(stats, m, env, supplied, var, extra, sub="coordinates"):
             stats.count("feature:" + k)
     if proper or odd or masked:
         stats.nontrivial_case(M.digest(M.canon(m), sorted(point)), describe(m, point, variables=vs, d_variable=var))
+
+
+def walk_objects(e, m, out, seen):
+    """(object, model) for every distinct sub-expression object of a built expression."""
+    if id(e) in seen:
+        return
+    seen.add(id(e))
+    out.append((e, m))
+    t = m[0]
+    if t in M.NARY:
+        kids = list(e._inners)
+    elif t in M.BINARY:
+        kids = [e._left, e._right]
+    elif t in M.LEAVES:
+        kids = []
+    else:
+        kids = [e._inner]
+    for ko, km in zip(kids, M.children(m)):
+        walk_objects(ko, km, out, seen)
+
+
+def subterm_checks(stats, m, env, case):
+    """Building a larger expression must not change which coordinates its sub-expressions need: every
+    sub-expression OBJECT of the built tree still needs exactly its own variables."""
+    e = build(m)
+    pairs = []
+    walk_objects(e, m, pairs, set())
+    for obj, sm in pairs[1:12]:
+        svs = M.variables(sm)
+        own = {k: env.get(k, 1) for k in svs}
+        o = lib.call(lambda: obj.at(lib.Point(**own)))
+        if o.kind == lib.MISS:
+            raise violation(ID, "subterm", f"subterm-missing:{sm[0]}", case,
+                            f"inside {M.text(m)[:200]}: sub-expression {M.text(sm)[:120]} mentions {svs} but at({M.point_text(own)}) raised CoordinateMissing")
+        b = lib.call(lambda: obj.at(1.25))
+        d = lib.call(lambda: lib.Derivative(obj))
+        if len(svs) <= 1:
+            if b.kind in (lib.EXC, lib.MISS) or d.kind != lib.OBJ:
+                raise violation(ID, "subterm", f"subterm-bare-rejected:{sm[0]}", case,
+                                f"after building {M.text(m)[:200]}: its sub-expression {M.text(sm)[:120]} has {len(svs)} variable(s) but at(1.25) gave {b!r} and Derivative(...) gave {d!r}")
+        else:
+            if b.kind in (lib.NUM, lib.DOM) or d.kind == lib.OBJ:
+                raise violation(ID, "subterm", f"subterm-bare-accepted:{sm[0]}", case,
+                                f"sub-expression {M.text(sm)[:120]} has variables {svs} but at(1.25) gave {b!r} / Derivative gave {d!r}")
+        stats.count("subterm-checks")
 
 
 def check_name(stats, name, value):
